@@ -1,5 +1,6 @@
 CONSTANTS
   Triples <- TripQuick
+  Pool <- PoolQuick
   Export = TRUE
 SPECIFICATION Spec
 INVARIANT MirrorIsRef
